@@ -523,6 +523,9 @@ def fetch_real(repo, blk, unit_substs):
     return ct, log, hashlib.sha256(raw_text.encode()).hexdigest()
 
 
+KEEP_MARKERS = False   # rebase mode (tools/rebase_unit.py): emit additions wrapped in their markers
+
+
 def weave(blk, real_ct):
     """returns (text, identical: bool, stats)"""
     text = "\n".join(blk.lines)
@@ -586,7 +589,7 @@ def render_inline(stream):
     out = []
     for kind, text in stream:
         if kind == "add":
-            out.append(" " + text + " ")
+            out.append(" " + (ADD_OPEN + text + ADD_CLOSE if KEEP_MARKERS else text) + " ")
         else:
             if kind == "glued" and out and out[-1] == " ":
                 out.pop()
